@@ -13,7 +13,9 @@ from .. import core
 PROP = "C10"
 
 SRC = '''\
+import contextvars
 import icontract
+CTXS = []
 LOG = []
 SCRIPTS = {}
 FALSY = {"c": None}
@@ -37,9 +39,9 @@ def do(act, self):
         LOG.append(("act", "f", None))
         try: f()
         finally: LOG.append(("act_end",))
-    elif act in ("g", "g2", "h", "r"):
+    elif act in ("g", "g2", "h", "r", "p", "p2"):
         LOG.append(("act", act, None))
-        try: {"g": g, "g2": g2, "h": h, "r": r}[act]()
+        try: {"g": g, "g2": g2, "h": h, "r": r, "p": p, "p2": p2}[act]()
         finally: LOG.append(("act_end",))
     elif act in ("self.m", "other.m"):
         me = self if self is not None else OBJ["A"]
@@ -72,6 +74,10 @@ def do(act, self):
         LOG.append(("act", "m", label(me)))
         try: me.m()
         finally: LOG.append(("act_end",))
+    elif act == "snap":
+        # keep a copy of the current context (as asyncio.create_task, copy_context().run in a worker thread, ... do); the copy
+        # outlives the call which made it
+        CTXS.append(contextvars.copy_context())
     else:
         raise ValueError(act)
 def slot(name, self=None):
@@ -104,6 +110,8 @@ class E_g2_post(Exception): pass
 class E_h_post(Exception): pass
 class E_r_pre(Exception): pass
 class E_ar_pre(Exception): pass
+class E_p_pre(Exception): pass
+class E_p2_pre(Exception): pass
 class E_m_pre(Exception): pass
 class E_m_post(Exception): pass
 class E_K_inv(Exception): pass
@@ -145,6 +153,14 @@ def h():
 def r():
     body_slot("r.body")
 
+# p and p2: two contracted functions (two checkers) built around ONE and the same plain function object
+def _plain():
+    body_slot("p.body")
+def p_pre(): return slot("p.pre")
+def p2_pre(): return slot("p2.pre")
+p = icontract.require(p_pre, error=E_p_pre)(_plain)
+p2 = icontract.require(p2_pre, error=E_p2_pre)(_plain)
+
 # ar: an ASYNC function with a precondition only
 @icontract.require(ar_pre, error=E_ar_pre)
 async def ar():
@@ -173,11 +189,13 @@ KEEP = []
 
 CONTRACT_SLOTS = ["f.pre", "f.cap", "f.post", "g.pre", "g.post", "g2.pre", "g2.post", "h.cap", "h.post", "r.pre", "ar.pre", "m.pre", "m.post", "K.inv"]
 BODY_SLOTS = ["f.body", "g.body", "g2.body", "h.body", "r.body", "ar.body", "m.body", "K.init", "K2.init"]
+# (the slots of p / p2 take part only in the programs of their own, see programs())
+P_SLOTS = ["p.pre", "p2.pre", "p.body"]
 SLOTS = CONTRACT_SLOTS + BODY_SLOTS
 ACTIONS = ["f", "g", "g2", "h", "r", "self.m", "other.m", "K()"]
 EXT_ACTIONS = ACTIONS + ["K!()", "kept.m"]
 ASYNC_ACTIONS = ["ar", "K2()"]
-TOPS = ["f", "g", "g2", "h", "r", "ar", "self.m", "K()", "K2()"]
+TOPS = ["f", "g", "g2", "h", "r", "ar", "self.m", "K()", "K2()", "p", "p2"]
 
 
 def scripts(maxlen):
@@ -250,6 +268,18 @@ def programs(tier):
                 for sb in small:
                     for sc in small:
                         progs.append({a: sa, b: sb, c: sc})
+    # two checkers around one plain function: scripts using p / p2
+    p_acts = ("p", "p2", "f", "self.m")
+    p_scripts = [[a] for a in p_acts] + [list(t) for t in itertools.product(p_acts, repeat=2) if "p" in t or "p2" in t]
+    for slot in P_SLOTS + ["f.pre", "m.pre", "K.inv", "f.body", "m.body"]:
+        for sc in p_scripts:
+            if slot in P_SLOTS or "p" in sc or "p2" in sc:
+                progs.append({slot: sc})
+    for a, b in itertools.permutations(P_SLOTS + ["f.pre", "K.inv", "m.body"], 2):
+        if a in P_SLOTS or b in P_SLOTS:
+            for sa in [["p"], ["p2"], ["f"], ["self.m"]]:
+                for sb in [["p"], ["p2"], ["f"], ["self.m"]]:
+                    progs.append({a: sa, b: sb})
     # An invariant that constructs a new instance of its own class recurses without bound in *any* semantics that
     # checks distinct objects (every new object is a different one): such programs are not part of the property.
     progs = [p for p in progs if not ({"K()", "K!()", "K2()"} & set(p.get("K.inv", ())))]
@@ -294,10 +324,10 @@ def ancestors(n):
 
 
 FUNC_CONTRACTS = {"f": {"f.pre", "f.cap", "f.post"}, "g": {"g.pre", "g.post"}, "g2": {"g2.pre", "g2.post"}, "h": {"h.cap", "h.post"}, "r": {"r.pre"}, "ar": {"ar.pre"},
-                  "m": {"m.pre", "m.post"}}
+                  "m": {"m.pre", "m.post"}, "p": {"p.pre"}, "p2": {"p2.pre"}}
 FULL = {"f": ["f.pre", "f.cap", "f.body", "f.post"], "g": ["g.pre", "g.body", "g.post"], "g2": ["g2.pre", "g2.body", "g2.post"], "r": ["r.pre", "r.body"], "ar": ["ar.pre", "ar.body"],
-        "h": ["h.cap", "h.body", "h.post"], "m": ["m.pre", "m.body", "m.post"]}
-BARE = {"f": ["f.body"], "g": ["g.body"], "g2": ["g2.body"], "h": ["h.body"], "r": ["r.body"], "ar": ["ar.body"], "m": ["m.body"]}
+        "h": ["h.cap", "h.body", "h.post"], "m": ["m.pre", "m.body", "m.post"], "p": ["p.pre", "p.body"], "p2": ["p2.pre", "p.body"]}
+BARE = {"f": ["f.body"], "g": ["g.body"], "g2": ["g2.body"], "h": ["h.body"], "r": ["r.body"], "ar": ["ar.body"], "m": ["m.body"], "p": ["p.body"], "p2": ["p.body"]}
 
 
 def judge_tree(root, complete):
@@ -311,7 +341,7 @@ def judge_tree(root, complete):
             continue
         slots = [c for c in n.children if c.kind == "slot"]
         names = [c.name for c in slots]
-        if n.name in ("f", "g", "g2", "h", "r", "ar", "m"):
+        if n.name in ("f", "g", "g2", "h", "r", "ar", "m", "p", "p2"):
             own = FUNC_CONTRACTS[n.name]
             must = not any(a.kind == "slot" and a.name in own for a in ancestors(n))
             core_names = [x for x in names if x != "K.inv"]
@@ -358,7 +388,7 @@ def run_one(ns, prog, top, falsy=None):
     ns["SCRIPTS"].update(prog)
     ns["FALSY"]["c"] = falsy
     ns["BUDGET"].clear()
-    ns["BUDGET"].update({b: 2 for b in BODY_SLOTS})
+    ns["BUDGET"].update({b: 2 for b in BODY_SLOTS + ["p.body"]})
     del ns["LOG"][:]
     del ns["KEEP"][2:]
     ns["NEW"]["n"] = 0
@@ -424,7 +454,7 @@ def check_program(prog, acc):
         while stack:
             n = stack.pop()
             stack.extend(n.children)
-            if n.kind == "slot" and n.name in ("f.pre", "f.post", "g.pre", "g.post", "g2.pre", "g2.post", "h.post", "r.pre", "ar.pre", "m.pre", "m.post", "K.inv"):
+            if n.kind == "slot" and n.name in ("f.pre", "f.post", "g.pre", "g.post", "g2.pre", "g2.post", "h.post", "r.pre", "ar.pre", "m.pre", "m.post", "K.inv", "p.pre", "p2.pre"):
                 call = n.parent
                 own = FUNC_CONTRACTS.get(call.name, set()) if call is not None and call.kind == "call" else set()
                 # evaluated as part of a checked call: the error has to propagate to the top (nobody catches)
@@ -441,14 +471,82 @@ def check_program(prog, acc):
                         c, want, exc2), falsy=c)
 
 
+# ---------------------------------------------------------------------------------------------
+# contexts copied while a contract / an operation is in progress and used after it has finished
+
+REENTRIES = [None, ("K.inv", ["self.m"]), ("m.pre", ["self.m"]), ("f.pre", ["f"]), ("f.post", ["f", "self.m"]), ("g.post", ["g"]), ("r.pre", ["r"])]
+LATER_TOPS = ["self.m", "f", "g", "r", "K()"]
+
+
+def copied_context_cases():
+    out = []
+    for snap_slot in SLOTS:
+        for re in REENTRIES:
+            prog = {snap_slot: ["snap"]}
+            if re is not None:
+                if re[0] == snap_slot:
+                    prog[snap_slot] = ["snap"] + re[1]
+                else:
+                    prog[re[0]] = list(re[1])
+            for top1 in TOPS:
+                for top2 in LATER_TOPS:
+                    out.append((prog, top1, top2))
+    return out
+
+
+def check_copied_context(case, acc):
+    ns = get_ns()
+    prog, top1, top2 = case
+    key0 = json.dumps(prog, sort_keys=True)
+
+    def first():
+        del ns["CTXS"][:]
+        log, exc = run_one(ns, prog, top1)
+        return log, exc, list(ns["CTXS"])
+    log1, exc1, ctxs = core.fresh_ctx_run(first)
+    if not ctxs or isinstance(exc1, (RecursionError, ns["Runaway"])):
+        return  # the first run does not reach the slot which copies the context (or is judged by the main family)
+    feats = {"slots": ",".join(sorted(prog)), "nslots": len(prog), "total_len": sum(len(v) for v in prog.values()), "top": top1,
+             "later_top": top2, "family": "copied_context", "falsy": None}
+    for ci, ctx in enumerate(ctxs[:2]):
+        def later():
+            # the same program, run after the first run has finished, inside the context copied during the first run
+            ns["BUDGET"].clear()
+            ns["BUDGET"].update({b: 2 for b in BODY_SLOTS})
+            del ns["LOG"][:]
+            exc = None
+            try:
+                ns["do"](top2, None)
+            except BaseException as e:
+                exc = e
+            return list(ns["LOG"]), exc
+        log2, exc2 = ctx.run(later)
+        acc.case((key0, top1, top2, ci, "copied"), True, len(log2), type(exc2).__name__ if exc2 else "ok")
+        script = SRC + "\n# program: SCRIPTS = {!r}; first {!r} (a slot copies the context), afterwards {!r} inside the copied context\n".format(prog, top1, top2)
+        spec = {"copied": True, "prog": prog, "top": top1, "later_top": top2}
+        if exc2 is not None:
+            sym = "nontermination" if isinstance(exc2, (RecursionError, ns["Runaway"])) else "unexpected_exception"
+            acc.violation(core.Violation(PROP, sym, feats, "after {} finished, {} inside the context copied in slot {}: {!r} after {} events".format(
+                top1, top2, [k for k, v in prog.items() if "snap" in v][0], exc2, len(log2)), spec=spec, script=script))
+            continue
+        for sym, node, detail, extra in judge_tree(build_tree(log2), True):
+            acc.violation(core.Violation(PROP, sym, dict(feats, **(extra or {})),
+                                         "after {} finished, {} inside the context copied during it: {}\n log={}".format(top1, top2, detail, log2[:60]),
+                                         spec=spec, script=script))
+            break
+
+
 def work(chunk):
     acc = core.Acc()
     old = sys.getrecursionlimit()
     sys.setrecursionlimit(600)
     try:
         for prog in chunk:
-            check_program(prog, acc)
-        if chunk:
+            if isinstance(prog, tuple):
+                check_copied_context(prog, acc)
+            else:
+                check_program(prog, acc)
+        if chunk and not isinstance(chunk[0], tuple):
             acc.sample({"program": chunk[0], "tops": TOPS})
     finally:
         sys.setrecursionlimit(old)
@@ -457,7 +555,8 @@ def work(chunk):
 
 def run(tier, t0):
     progs = programs(tier)
-    tot = core.merge(core.pmap(work, core.rotate(progs)))
+    copied = copied_context_cases()
+    tot = core.merge(core.pmap(work, core.rotate(progs + copied)))
     return core.finish(
         PROP, tier, tot, t0,
         rule="call-graph programs over f (pre/capture/post), g and g2 (pre/post, made by one factory: shared code objects), h (capture/post "
@@ -467,7 +566,10 @@ def run(tier, t0):
              "is handled, kept.m() = a call on the most recently constructed instance}; enumerated: every program with <= 2 (quick) / 3 (thorough) non-empty slots, "
              "x 7 top-level actions x (all true | each evaluated condition falsy). A monitor checks on the real event tree that "
              "the run terminates and that every call whose ancestors contain no evaluation of its own contracts (resp. no "
-             "operation on the same object) is fully checked; re-entrant calls may be checked or bare; non-trivial = every program",
+             "operation on the same object) is fully checked; re-entrant calls may be checked or bare; non-trivial = every program. " +
+             "Plus {} copied-context cases: a slot (each of the 23) copies the current context while its call is in progress (as create_task / "
+             "copy_context().run in a worker do), with one of 7 re-entering scripts elsewhere; after the first top-level action has finished, "
+             "each of 5 top-level actions runs inside the copied context and is judged as a fresh top-level call (terminates, fully checked)".format(len(copied)),
         assumptions=["body scripts run at most twice per run (the program's own recursion is finite); contract scripts are unguarded",
                      "recursion limit 600 frames, 6000 events as the runaway detector"],
         bounds={"programs": len(progs), "max_nonempty_slots": 2 if tier == "quick" else 3, "max_script_len": 2},
@@ -478,7 +580,10 @@ def replay(path):
     data = json.load(open(path))["spec"]
     acc = core.Acc()
     sys.setrecursionlimit(600)
-    check_program(data["prog"], acc)
+    if data.get("copied"):
+        check_copied_context((data["prog"], data["top"], data["later_top"]), acc)
+    else:
+        check_program(data["prog"], acc)
     for v in acc.violations[:5]:
         print("VIOLATION property={} replay={}".format(PROP, path))
         print(" ", v.symptom, v.detail[:400])
